@@ -708,8 +708,8 @@ impl Case {
                     }
                 };
                 if has != st.is_some() {
-                    // reported by the caller through the presence comparison
-                    return (k, if has { Some(('?', None)) } else { None });
+                    // has_value_raw and the table disagree: reported by `check_state`
+                    return (k, Some((if has { '?' } else { '!' }, None)));
                 }
                 (k, st)
             })
@@ -741,6 +741,9 @@ impl Case {
                     if s + x > 0 {
                         v.push(("C08", format!("after `{}`: {} is absent although {} guard(s) on it are alive", after, show_key(*k), s + x)));
                     }
+                }
+                Some((c @ ('?' | '!'), _)) => {
+                    v.push(("C09", format!("after `{}`: has_value_raw({}) answers {} but the cell lookup (try_fetch_internal) says {}", after, show_key(*k), *c == '?', *c != '?')));
                 }
                 Some((c, info)) => {
                     if refd.is_none() {
@@ -1892,7 +1895,15 @@ pub fn run(args: &Args, rep: &mut Report) {
     let mut reported: BTreeSet<String> = BTreeSet::new();
     for (label, ops) in todo {
         if let Some(Op::Conc { threads, ops: n, seed: s }) = ops.first().cloned() {
-            let r = run_conc(threads, n, s);
+            // a replayed stress case is schedule dependent: give it several attempts
+            let attempts = if label.starts_with("replay") { 20 } else { 1 };
+            let mut r = run_conc(threads, n, s);
+            for i in 1..attempts {
+                if !r.violations.is_empty() {
+                    break;
+                }
+                r = run_conc(threads, n, s + i);
+            }
             rep.case(&ops[0].line(), r.conflicts > 0);
             rep.count("conc_rounds");
             rep.add("conc_guards_acquired (schedule dependent)", r.acquired);
@@ -1902,11 +1913,15 @@ pub fn run(args: &Args, rep: &mut Report) {
                     // shrink: fewer threads / fewer ops while it still fails (three tries each, schedules vary)
                     let (mut t, mut n2) = (threads, n);
                     let mut what = v.clone();
-                    let fails = |t: u64, n: u64| -> Option<String> { (0..3).find_map(|i| run_conc(t, n, s + i).violations.first().cloned()) };
+                    // accepted only if three runs in a row fail, so that the replay reproduces
+                    let fails = |t: u64, n: u64| -> Option<String> {
+                        let v: Vec<Option<String>> = (0..3).map(|i| run_conc(t, n, s + i).violations.first().cloned()).collect();
+                        if v.iter().all(|x| x.is_some()) { v[0].clone() } else { None }
+                    };
                     while t > 2 {
                         match fails(t - 1, n2) { Some(w) => { t -= 1; what = w; } None => break }
                     }
-                    while n2 > 50 {
+                    while n2 > 400 {
                         match fails(t, n2 / 2) { Some(w) => { n2 /= 2; what = w; } None => break }
                     }
                     rep.violate("C08", "impl", "", format!("{} [{}; many threads on one &World]", what, label), vec![Op::Conc { threads: t, ops: n2, seed: s }.line()]);
